@@ -111,15 +111,176 @@ def one(job):
         return {"job": job, "error": str(e)[-600:]}
 
 
+# ----------------------------------------------------------------------------- the state of the store at export time
+# The exported graph (nodes + styled edges), the result and the signatures are functions of the pipeline only: whatever
+# the store already contains when the graph is requested, and whether or not the extra debug information (which asks the
+# store which blobs are present) is computed, they must equal what the same pipeline gives on a fresh store.
+
+def _other_literals(call):
+    """The same top-level call with every argument replaced by another literal (None when the call has no argument)."""
+    if not call.get("pos") and not call.get("kw"):
+        return None
+    def other(v):
+        return P.LIT_VALUES[(P.LIT_VALUES.index(v) + 4) % len(P.LIT_VALUES)] if v in P.LIT_VALUES else P.LIT_VALUES[0]
+    return dict(call, pos=[other(v) for v in call.get("pos", [])], kw=[[k, other(v)] for k, v in call.get("kw", [])])
+
+
+def sub_pipelines(prog, call):
+    """Other pipelines that share sub-nodes with this one: the functions below the entry point that keep something,
+    evaluated on their own (required parameters bound to literals)."""
+    out = []
+    for (m, n) in P.reachable(prog, call["mod"], call["fn"])[1:]:
+        g = P.find_func(prog, m, n)
+        if g.get("is_class"):
+            continue
+        if g.get("annot"):
+            out.append({"a": "call", "mod": m, "fn": n, "style": "direct", "pos": [], "kw": []})
+        elif P.contains_keep(prog, m, n):
+            pos = [P.LIT_VALUES[(3 + j) % len(P.LIT_VALUES)] for j, p in enumerate(g["params"]) if p.get("default") is None]
+            out.append({"a": "call", "mod": m, "fn": n, "style": "eval", "pos": pos, "kw": []})
+    return out
+
+
+def _num(e):
+    """Numeric value of an encoded bool / int / float, None for the other values."""
+    if e[0] == "bool":
+        return int(bool(e[1]))
+    if e[0] == "int":
+        return int(e[1])
+    if e[0] == "float":
+        import struct
+        return struct.unpack("!d", bytes.fromhex(e[1]))[0]
+    return None
+
+
+def classified_edits(prog, call, rng):
+    """Single edits that change some signatures of the pipeline, by what is edited: {class: [(description, edited program)]}.
+    kept-leaf = function kept / data function with no keep below it; middle = function (not the entry point) with keeps
+    below it; entry = the evaluated function; helper = plain function without keeps; variable / literal."""
+    p0 = copy.deepcopy(prog)
+    p0["root"] = (call["mod"], call["fn"])
+    kept_only = P.kept_only_functions(p0)
+    out = {}
+    for kind, desc, p2 in P.edit_catalogue(p0, rng):
+        if kind == "body":
+            m, n = desc["fn"]
+            if (m, n) == (call["mod"], call["fn"]):
+                cls = "entry"
+            elif P.contains_keep(prog, m, n):
+                cls = "middle"
+            elif (m, n) in kept_only or P.find_func(prog, m, n).get("annot"):
+                cls = "kept-leaf"
+            else:
+                cls = "helper"
+        elif kind == "var":
+            cls = "variable"
+            # dds_hash identifies True / 1 / 1.0 (documented, C05): such an edit is no edit for dds
+            old = prog["modules"][desc["mod"]]["vars"][desc["name"]]
+            if _num(desc["value"]) is not None and _num(desc["value"]) == _num(old):
+                new = rng.choice([v for v in P.VAR_VALUES if _num(v) is None or _num(v) != _num(old)])
+                p2["modules"][desc["mod"]]["vars"][desc["name"]] = desc["value"] = new
+        elif kind == "literal":
+            cls = "literal"
+            st0, st2 = P.find_func(prog, *desc["fn"])["stmts"][desc["stmt"]], P.find_func(p2, *desc["fn"])["stmts"][desc["stmt"]]
+            where, j = ("args", desc["arg"]) if "arg" in desc else ("pos", desc["pos"])
+            old = st0[where][j][1]
+            if _num(st2[where][j][1]) is not None and _num(st2[where][j][1]) == _num(old):
+                st2[where][j] = ["lit", rng.choice([v for v in P.LIT_VALUES if _num(v) is None or _num(v) != _num(old)])]
+        else:
+            continue
+        p2["root"] = prog["root"]
+        out.setdefault(cls, []).append((dict(desc, kind=kind), p2))
+    return out
+
+
+EDIT_CLASSES = ("kept-leaf", "middle", "variable", "literal", "helper", "entry")
+
+
+def store_state_scenarios(job, idx, tier, rng):
+    """Histories that bring the store into some state and then request the graph of job's pipeline.  Each scenario:
+    {"state": class of store state, "detail", "events", "store", "options", "observe": [(index of the action among the
+    records, label)]}."""
+    prog, call, pre = job["prog"], job["call"], job.get("pre", [])
+    head = [("prog", prog)] + [("act", a) for a in pre]
+    exp = dict(call, export=True)
+    quick = tier == "quick"
+    out = []
+    # fully populated: the same pipeline was evaluated before (without / with export); dds_extra_debug given explicitly
+    out.append({"state": "same-pipeline-evaluated-before", "detail": "evaluated, then exported twice (second time dds_extra_debug=True)", "store": "memory", "options": {},
+                "events": head + [("act", call), ("act", exp), ("act", dict(exp, extra_debug=True))],
+                "observe": [(len(pre) + 1, "all blobs present"), (len(pre) + 2, "all blobs present, dds_extra_debug=True")]})
+    # the extra debug information switched off (option extra_debug=False): fresh, then fully populated
+    if not quick or idx % 4 == 0:
+        out.append({"state": "extra-debug-off", "detail": "option extra_debug=False: exported on the fresh store, then again", "store": "memory", "options": {"extra_debug": False},
+                    "events": head + [("act", exp), ("act", exp)], "observe": [(len(pre), "fresh store"), (len(pre) + 1, "all blobs present")]})
+    # populated by other pipelines that share sub-nodes
+    subs = sub_pipelines(prog, call)
+    if subs and (not quick or idx % 2 == 0):
+        chosen = [subs[idx % len(subs)]] if quick else subs[:2]
+        for s in chosen:
+            out.append({"state": "sub-pipeline-evaluated-before", "detail": f"{s['mod']}.{s['fn']} evaluated on its own before", "store": "memory", "options": {},
+                        "events": head + [("act", s), ("act", exp)], "observe": [(len(pre) + 1, f"blobs below {s['fn']} present")]})
+    # the same entry point evaluated with other arguments: the keeps that do not depend on them are present
+    c2 = _other_literals(call)
+    if c2 is not None:
+        out.append({"state": "evaluated-with-other-arguments", "detail": "same entry point evaluated before with other argument values", "store": "memory", "options": {},
+                    "events": head + [("act", c2), ("act", exp)], "observe": [(len(pre) + 1, "blobs independent of the arguments present")]})
+    # partly populated: an edited variant of the pipeline was evaluated before on the same (local) store, in another
+    # process: the blobs not affected by the edit are present, the edited function and everything above it are not
+    eds = classified_edits(prog, call, rng)
+    classes = [c for c in EDIT_CLASSES if c in eds]
+    if quick:
+        classes = [classes[(idx // 2) % len(classes)]] if classes else []
+    for j, cls in enumerate(classes):
+        desc, p2 = eds[cls][idx % len(eds[cls])]
+        # the run-time debug switch is one more coordinate of the partly populated state
+        opts = {"extra_debug": False} if (idx + j) % 3 == 2 else {}
+        ex2 = dict(exp, extra_debug=True) if (idx + j) % 3 == 1 else exp
+        out.append({"state": "edited-variant-evaluated-before:" + cls, "detail": f"variant with edit {json.dumps(desc)} evaluated before" + (" (option extra_debug=False)" if opts else ""),
+                    "store": "local", "options": opts,
+                    "events": [("prog", p2)] + [("act", a) for a in pre] + [("act", call)] + head + [("act", ex2)],
+                    "observe": [(2 * len(pre) + 1, f"blobs not affected by the {cls} edit present")]})
+    return out
+
+
+def run_state(sc):
+    import os
+    import shutil
+    import tempfile
+    gdir = tempfile.mkdtemp(prefix="c18g_", dir=C.scratch_dir())
+    try:
+        # one file per export of the history: a file left by an earlier export must not pass for the graph of a later one
+        events = []
+        for k, e in enumerate(sc["events"]):
+            if e[0] == "act" and e[1].get("export") is True:
+                e = ("act", dict(e[1], export=os.path.join(gdir, f"g{k}.plain")))
+            events.append(e)
+        recs = hist.run_history(events, store_kind=sc["store"], run_ref=False, run_model=False, options=sc["options"])
+        return {"sc": sc, "recs": recs}
+    except Exception as e:  # noqa
+        return {"sc": sc, "error": str(e)[-600:]}
+    finally:
+        shutil.rmtree(gdir, ignore_errors=True)
+
+
+def events_json(events):
+    return [list(e) for e in events]
+
+
 def run(rep, tier, seed, proof_ok):
     rng = random.Random(seed)
     n = 14 if tier == "quick" and proof_ok else 150
+    n_st = min(n, 14) if tier == "quick" else 60         # random pipelines that are also exported in the other states of the store
     rep.rule = (f"{n} random pipelines (nesting, shared sub-nodes, keeps with run-time arguments) plus the load scenarios of C09 (placement x "
                 "producer) evaluated with dds_export_graph (plain format) on a memory store: the exported nodes and styled edges are "
                 "parsed back and compared with the Coq model of _structure and with the specification graph computed from the program "
                 "(kept paths + paths loaded by kept functions as nodes; solid = reaches the keep without crossing a kept function; "
                 "dashed = loads; remaining edges must be dotted and join sibling keeps); result and signatures are compared with the "
-                "same evaluation without export; plus random interaction trees with shared sub-trees, run-time-argument nodes and loads given directly to the real _structure (cycle search; a sample compared with the Coq model); distinct = distinct pipeline / tree; non-trivial = at least two nodes")
+                f"same evaluation without export; {n_st} of the random pipelines and all the others are exported again in other states of the store at export time (the same pipeline "
+                "evaluated / exported before = all blobs present, with dds_extra_debug=True or the option extra_debug=False; another pipeline sharing sub-nodes (a function "
+                "below the entry point) evaluated before; the same entry point evaluated before with other arguments; an edited variant (kept leaf / middle function / "
+                "variable / literal / helper / entry point) evaluated before on the same local store by another process = partly populated): graph, result and "
+                "signatures must equal those of the fresh store; plus random interaction trees with shared sub-trees, run-time-argument nodes and loads given directly to the real _structure (cycle search; a sample compared with the Coq model); distinct = distinct pipeline / tree; non-trivial = at least two nodes")
     jobs = []
     for i in range(n):
         r2 = random.Random(seed * 1000 + i)
@@ -145,9 +306,21 @@ def run(rep, tier, seed, proof_ok):
         call = {"a": "call", "mod": "m0", "fn": "root", "style": "eval", "pos": [], "kw": []}
         pre = [{"a": "call", "mod": "m0", "fn": "prod", "style": "keep", "path": "/p", "pos": [], "kw": []}]
         jobs.append({"prog": prog, "call": call, "pre": pre, "load_scenario": f"{placement}/alias-of-earlier-evaluation"})
+    # the state of the store at export time (quick: every pipeline gets the fully populated state and a rotation of the others)
+    scs = []
+    for i, job in enumerate(jobs):
+        job["idx"] = i
+    n_state_pipelines = len(jobs) - n + n_st
+    for i, job in enumerate(jobs[-n_state_pipelines:]):
+        bi = len(jobs) - n_state_pipelines + i
+        for sc in store_state_scenarios(job, bi, tier, random.Random(seed * 7919 + bi)):
+            scs.append(dict(sc, base=bi))
     with cf.ThreadPoolExecutor(max_workers=C.NPROC) as ex:
-        res = list(ex.map(one, jobs))
-    good = [r for r in res if "error" not in r and r["rec"]["impl"]["out"].startswith("ok:")]
+        fut = [ex.submit(one, j) for j in jobs]
+        sfut = [ex.submit(run_state, sc) for sc in scs]
+        res = [f.result() for f in fut]
+        sres = [f.result() for f in sfut]
+    good =[r for r in res if "error" not in r and r["rec"]["impl"]["out"].startswith("ok:")]
     exprs = []
     for r in good:
         job = r["job"]
@@ -163,6 +336,7 @@ def run(rep, tier, seed, proof_ok):
         exprs.append(f"run_export {term} {hist.style_coq(job['call'])} {pos} {kw} {pc}")
     model = C.coq_eval_strings(PRELUDE, exprs, label="c18")
     sizes = {}
+    fresh = {}          # pipeline index -> what the export on the fresh store gave
     for r, m in zip(good, model):
         job = r["job"]
         rep_job = {"prog": job["prog"], "call": job["call"], "pre": job.get("pre", [])}
@@ -171,6 +345,7 @@ def run(rep, tier, seed, proof_ok):
             rep.violation("export-missing", "the evaluation succeeded but no graph file was written", rep_job)
             continue
         nodes, edges = parse_plain(text)
+        fresh[job["idx"]] = {"nodes": nodes, "edges": edges, "out": r["rec"]["impl"]["out"], "sigs": hist.impl_obs(r["rec"])["sigs"]}
         rep.case(json.dumps(job["call"]) + str(len(nodes)) + str(sorted(nodes))[:200], nontrivial=len(nodes) >= 2)
         sizes[len(nodes)] = sizes.get(len(nodes), 0) + 1
         # 1. does not perturb
@@ -224,6 +399,43 @@ def run(rep, tier, seed, proof_ok):
         for a, b, s in edges:
             if s not in ("solid", "dashed", "dotted"):
                 rep.violation("edge-style-unknown", f"edge {a}->{b} has style {s}", rep_job)
+    # 4. the state of the store at export time: same graph, result and signatures as on the fresh store
+    states = {}
+    for sr in sres:
+        sc = sr["sc"]
+        base = fresh.get(sc["base"])
+        if base is None:
+            continue        # the pipeline does not evaluate (or its export on the fresh store is reported above)
+        bjob = jobs[sc["base"]]
+        rep_sc = {"events": events_json(sc["events"]), "store": sc["store"], "options": sc["options"], "state": sc["state"], "detail": sc["detail"],
+                  "fresh_events": events_json([("prog", bjob["prog"])] + [("act", a) for a in bjob.get("pre", [])] + [("act", dict(bjob["call"], export=True))]),
+                  "fresh_nodes": sorted(base["nodes"]), "fresh_edges": sorted(base["edges"])}
+        if "error" in sr:
+            rep.violation("harness-error:c18-store-state", sr["error"][-300:], rep_sc, no_input=True)
+            continue
+        for pos, label in sc["observe"]:
+            rec = sr["recs"][pos]
+            io = rec["impl"]
+            rj = dict(rep_sc, observe=pos, label=label)
+            where = f"store state '{sc['state']}' ({sc['detail']}; {label}), entry {bjob['call']['mod']}.{bjob['call']['fn']}"
+            states[sc["state"]] = states.get(sc["state"], 0) + 1
+            if not io["out"].startswith("ok:"):
+                rep.violation("store-state:export-fails:" + sc["state"], f"{where}: the evaluation with dds_export_graph gives {io['out'][:80]}, on a fresh store it succeeds",
+                              dict(rj, tb=io.get("tb", "")[-400:]))
+                continue
+            sigs = hist.impl_obs(rec)["sigs"]
+            if io["out"] != base["out"] or (sigs is not None and base["sigs"] is not None and sorted(sigs.split(",")) != sorted(base["sigs"].split(","))):
+                rep.violation("store-state:result-or-signatures-differ:" + sc["state"], f"{where}: result or signatures differ from the evaluation on a fresh store", rj)
+            if io.get("graph") is None:
+                rep.violation("store-state:export-missing:" + sc["state"], f"{where}: the evaluation succeeded but no graph file was written", rj)
+                continue
+            nodes, edges = parse_plain(io["graph"])
+            rep.case("store:" + sc["state"] + label + json.dumps(bjob["call"]) + str(sorted(base["edges"]))[:200] + str(sorted(nodes))[:200], nontrivial=len(nodes) >= 2)
+            if nodes != base["nodes"] or edges != base["edges"]:
+                rep.violation("store-state:graph-differs:" + sc["state"],
+                              f"{where}: the exported graph differs from the graph of the same pipeline exported on a fresh store: missing nodes {sorted(base['nodes'] - nodes)[:3]} "
+                              f"extra nodes {sorted(nodes - base['nodes'])[:3]} missing edges {sorted(base['edges'] - edges)[:4]} extra edges {sorted(edges - base['edges'])[:4]}",
+                              dict(rj, nodes=sorted(nodes), edges=sorted(edges)))
     for r in res:
         if "error" in r:
             rep.violation("harness-error:c18", r["error"][-300:], {"call": r["job"]["call"]}, no_input=True)
@@ -254,12 +466,52 @@ def run(rep, tier, seed, proof_ok):
         if mnodes != smp["nodes"] or medges != smp["edges"]:
             rep.violation("model-mismatch:graph-fuzz", "the real _structure and its Coq model differ on a fuzzed interaction tree",
                           {"fuzz": True, "tree": smp["tree"], "impl_nodes": smp["nodes"], "impl_edges": smp["edges"], "model": m})
-    rep.extra["input_distribution"] = {"pipelines": len(jobs), "graphs_by_number_of_nodes": sizes, "fuzzed_interaction_trees": fz["trees"],
+    rep.extra["input_distribution"] = {"pipelines": len(jobs), "graphs_by_number_of_nodes": sizes, "store_state_histories": len(scs),
+                                       "exports_by_store_state": dict(states, fresh=len(good)), "fuzzed_interaction_trees": fz["trees"],
                                        "fuzzed_trees_compared_with_model": len(fz["sample"])}
     if good:
         rep.sample({"entry": good[0]["job"]["call"], "graph": good[0]["rec"]["impl"].get("graph", "")[:300]})
 
 
+def _tuples(events):
+    events = [tuple(e) for e in events]
+    for e in events:
+        if e[0] == "prog":
+            e[1]["root"] = tuple(e[1]["root"])
+    return events
+
+
 def replay(path):
-    import c01
-    return c01.replay(path)
+    r = json.load(open(path))["replay"]
+    if r.get("fuzz"):
+        print("fuzzed interaction tree: re-run drive_graphfuzz.py with the recorded seed; tree:", json.dumps(r["tree"])[:2000])
+        return 1
+    if "events" in r:
+        # a store-state scenario: the history is run again, and the same pipeline is exported on a fresh store
+        got = run_state({"events": _tuples(r["events"]), "store": r["store"], "options": r["options"]})
+        ref = run_state({"events": _tuples(r["fresh_events"]), "store": "memory", "options": {}})
+        for x in (got, ref):
+            if "error" in x:
+                print("harness error:", x["error"])
+                return 2
+        a, b = got["recs"][r["observe"]]["impl"], ref["recs"][-1]["impl"]
+        print(f"state: {r['state']} ({r['detail']}; {r.get('label')})")
+        print("in that state :", a["out"][:100], sorted(parse_plain(a.get("graph") or "")[1]))
+        print("fresh store   :", b["out"][:100], sorted(parse_plain(b.get("graph") or "")[1]))
+        bad = a["out"] != b["out"] or a.get("graph") is None or parse_plain(a["graph"]) != parse_plain(b.get("graph") or "")
+        print("REPRODUCED" if bad else "not reproduced")
+        return 1 if bad else 0
+    r["prog"]["root"] = tuple(r["prog"]["root"])
+    x = one({"prog": r["prog"], "call": r["call"], "pre": r.get("pre", [])})
+    if "error" in x:
+        print("harness error:", x["error"])
+        return 2
+    nodes, edges = parse_plain(x["rec"]["impl"].get("graph") or "")
+    kept, loaded, solid, dashed = spec_graph(r["prog"], r["call"])
+    print("with export   :", x["rec"]["impl"]["out"][:100], "| without:", x["ctl"]["impl"]["out"][:100])
+    print("exported      : nodes", sorted(nodes), "edges", sorted(edges))
+    print("specification : nodes", sorted(kept | loaded), "solid", sorted(solid), "dashed", sorted(dashed))
+    bad = (x["rec"]["impl"]["out"] != x["ctl"]["impl"]["out"] or has_cycle(edges) or bool((kept | loaded) - nodes)
+           or {(a, b) for a, b, s in edges if s == "solid"} != solid or {(a, b) for a, b, s in edges if s == "dashed"} != dashed)
+    print("REPRODUCED" if bad else "not reproduced")
+    return 1 if bad else 0
